@@ -86,7 +86,7 @@ def expected_counts(cells, pardim, period=None):
     return expected
 
 
-def build_ring(rng, pardim, order=2, refine=0, rational=False, repeat_knot=False, nring=None):
+def build_ring(rng, pardim, order=2, refine=0, rational=False, repeat_knot=False, nring=None, right_handed=False):
     """Conforming complexes that close around an axis: the lattice is periodic along axis 0 with nring cells per turn.
     nring = 1: every patch is a ring cut open along a seam, so its first and last face along axis 0 are ONE interface
     (a patch adjacent to itself); nring = 2: two patches that meet along two different interfaces; nring = 3: an
@@ -120,14 +120,15 @@ def build_ring(rng, pardim, order=2, refine=0, rational=False, repeat_knot=False
                 for m in range(M + 1):
                     cps.append(point(c[0] * M + m, c[1] + jj, (c[2] + kk) if pardim == 3 else 0.0))
         o = cls(*([b0] + [BSplineBasis(2) for _ in range(pardim - 1)]), cps)
-        patches.append(_dress(rng, o, pardim, order, refine, repeat_knot, rational, False))
+        # the patch as built (angle, radius, height) is left-handed: right-handed re-orientations are the odd ones
+        patches.append(_dress(rng, o, pardim, order, refine, repeat_knot, rational, right_handed, base_parity=1))
     order_ = list(range(len(patches)))
     rng.shuffle(order_)
     return dict(patches=[patches[i] for i in order_], cells=[cells[i] for i in order_], kind='ring%d' % nring,
                 expected=expected_counts(cells, pardim, nring), phi=None, pardim=pardim, dim=dim, period=nring)
 
 
-def _dress(rng, o, pardim, order, refine, repeat_knot, rational, right_handed):
+def _dress(rng, o, pardim, order, refine, repeat_knot, rational, right_handed, base_parity=0):
     """order elevation, refinement, repeated knots, rationality and a random re-orientation of one patch"""
     if order > 2:
         o.raise_order(*([order - 2] * pardim))
@@ -144,7 +145,7 @@ def _dress(rng, o, pardim, order, refine, repeat_knot, rational, right_handed):
     while True:
         perm, flip = rng.choice(ors)
         parity = (sum(flip) + sum(1 for i in range(pardim) for j in range(i) if perm[j] > perm[i])) % 2
-        if not right_handed or parity == 0:
+        if not right_handed or parity == base_parity:
             break
     return reorient(o, perm, flip)
 
